@@ -239,7 +239,7 @@ func init() {
 		spec := &mc.Spec{
 			Level: "exploration",
 			Rule: "pairs of concurrent runs over {ptrace, namespace, container A, container B} (thorough: also triples with the third run interleaved at every position), each cut into three gated phases; every merge of the phase sequences (20 per pair) is executed; each run has its own descriptor list (stdin pipe + 1/2 private files), exit code and output file; " +
-				"plus calls on one environment issued while another call on it is in flight (Execve behind Execve; Ping, Open, Reset behind a long Execve, incl. longer than the ping timeout). Differential oracle: verdict, exit value and the program's descriptor table (every descriptor must be one of the run's own files) equal what the same run observes alone. " +
+				"plus calls on one environment issued while another call on it is in flight (Execve behind Execve; Ping, Open, Reset behind a long Execve, incl. longer than the ping timeout). plus the signal of a finished run: the SIGKILL of a run's cancellation goroutine (ptrace tracer, namespace runner) released at once / after the run returned / once a later run's program exists under the finished run's process id (helper in a private pid namespace, pid space of the namespace made small through its pid_max so that ids come round within a few dozen forks) — in every schedule the code admits the later run ends as alone. Differential oracle: verdict, exit value and the program's descriptor table (every descriptor must be one of the run's own files) equal what the same run observes alone. " +
 				"non-trivial: the merge actually overlaps the two runs; distinct = (pair, merge, observations)",
 			Bound:       map[string]any{"phases_per_run": 3, "merges_per_pair": 20},
 			Assumptions: []string{"schedules are exhaustive at phase granularity; thread-level interleavings inside fork…exec are not controlled (the fork lock is observed through descriptor tables only)"},
@@ -250,9 +250,13 @@ func init() {
 		spec.Init = func() error { devnull(); return nil }
 		spec.Fini = func() { c17drop(); cleanupTmp() }
 		spec.Body = func(x *mc.X) {
-			fam := x.Pick("family", "pair-merge", "same-environment")
+			fam := x.Pick("family", "pair-merge", "same-environment", "signal-of-a-finished-run")
 			if fam == "same-environment" {
 				c17sameEnv(x)
+				return
+			}
+			if fam == "signal-of-a-finished-run" {
+				c17late(x)
 				return
 			}
 			pair := pairs[x.Choose(len(pairs), "pair")]
